@@ -47,6 +47,13 @@ func c12(args []string) {
 		reader := fmt.Sprintf("s-of-%d", st.ID)
 		defs := []string{}
 		for _, op := range st.Ops {
+			if op.Op == "defmeth" {
+				// a method on the class, of a message and of a generic function of this stimulus
+				o1 := h.Eval(s, fmt.Sprintf("(defmethod (%s :who) () '%s)", real(op.C), real(op.C)))
+				o2 := h.Eval(s, fmt.Sprintf("(defmethod whog-%d ((x %s)) '%s)", st.ID, real(op.C), real(op.C)))
+				defs = append(defs, o1.Class+o2.Class)
+				continue
+			}
 			if op.Op == "make" {
 				o := h.Eval(s, fmt.Sprintf("(make-instance '%s)", real(op.C)))
 				defs = append(defs, o.Class)
@@ -110,6 +117,13 @@ func c12(args []string) {
 				cell["classof"] = strip.Replace(slip.ObjectString(o.Val))
 			} else {
 				cell["classof"] = "error:" + o.Class
+			}
+			for key, form := range map[string]string{"who": "(send (make-instance '%s) :who)", "whog": fmt.Sprintf("(whog-%d (make-instance '%%s))", st.ID)} {
+				if o := h.Eval(s, fmt.Sprintf(form, real(c))); o.OK() {
+					cell[key] = strip.Replace(slip.ObjectString(o.Val))
+				} else {
+					cell[key] = "none"
+				}
 			}
 			isa := []string{}
 			for _, d := range st.Classes {
